@@ -158,6 +158,36 @@ def float_corner_cases(est_name):
   return fn
 
 
+def batch_sizes(est_name):
+  """NOT solver-decided (the symbolic cases score at most three pairs per call): a pair's distance does not depend on how many pairs are
+  scored in the same call nor on its position in the batch -- batch lengths around powers of two up to 10^4 (sampled)"""
+  def fn(ctx):
+    rs = np.random.RandomState(5)
+    d = 3
+    L = rs.randn(2, d)
+    X = rs.randn(40, d)
+    est = mahal.fitted(est_name, L)
+    esti = mahal.fitted(est_name, L, preprocessor=X)
+    f = est.get_metric()
+    for n in (1, 2, 3, 31, 255, 256, 257, 1023, 1024, 1025, 1089, 2047, 2048, 2049, 4097, 10001):
+      idx = rs.randint(0, len(X), size=(n, 2))
+      P = X[idx]
+      D = est.pair_distance(P)
+      Dr = est.pair_distance(P[:, ::-1])
+      S = est.pair_score(P)
+      Di = esti.pair_distance(idx)
+      T = est.transform(X[idx[:, 0]])
+      ctx.require('one_distance_per_pair', ctx.cond(D.shape == (n,) and Dr.shape == (n,) and S.shape == (n,) and Di.shape == (n,) and T.shape == (n, 2)))
+      probe = sorted(set([0, n // 2, n - 1] + list(range(max(0, n - 70), n)) + list(rs.randint(0, n, size=20))))
+      for i in probe:
+        ref = f(P[i, 0], P[i, 1])
+        ok = abs(D[i] - ref) <= 1e-12 * (1 + ref)
+        ctx.require('distance_of_a_pair_does_not_depend_on_batch_length_or_position', ctx.cond(ok and D[i] == Dr[i] and S[i] == -D[i]))
+        ctx.require('indexed_batch_agrees_with_formed_batch', ctx.cond(Di[i] == D[i]))
+        ctx.require('transform_row_does_not_depend_on_batch_length', ctx.cond(np.allclose(T[i], L @ P[i, 0], rtol=1e-12, atol=1e-12)))
+  return fn
+
+
 def structure():
   """every estimator resolves the distance API to the shared implementation that the symbolic
   cases execute (checked per group: a subclass override gets its own symbolic run)."""
@@ -185,6 +215,9 @@ def cases(tier, seed):
     out.append(case('float_corner_cases_g%d' % gi, float_corner_cases(rep), FUNCS,
                     '12 random transformations (full row rank and rank one), pairs of magnitude 1e-100 .. 1e100 in one batch, null-space differences '
                     '(concrete float64 runs, sampled; outside the real-arithmetic model)', concrete_only=True, validate=1))
+    out.append(case('batch_sizes_sampled_g%d' % gi, batch_sizes(rep), FUNCS,
+                    'fixed random components_ 2x3, batches of 1 .. 10001 pairs (lengths around powers of two), formed and indexed: every probed pair agrees '
+                    'with the single-pair metric function (concrete, sampled; not solver-decided)', concrete_only=True, validate=1))
     out.append(case('int_inputs_g%d' % gi, int_inputs(rep), FUNCS,
                     'fixed random components_ 2x3, 40 random integer-dtype point triples (concrete differential run, not solver-decided)',
                     concrete_only=True, validate=1))
